@@ -13,11 +13,19 @@
 //                                 answers which instantiate the model's Section variables vals / auths)
 //   WR <cc> <withLogin> <term>  -> WR <rewriteTag(term, cc, withLogin)>
 //   QR <cc> <withLogin> <query> -> QR ok <and groups> <or list> | QR err
-//   FS <masked ns> <own tags> <cc> <candidates> <requests>
+//   FS <masked ns> <own tags> <cc> <candidates> <requests> [anon]
 //      candidates: id.kind(u|t).state(0 ok|1 suspended|2 deleted).tags ; ...
 //      requests  : d.s.pub.priv ({set desc}; ~ = field absent)  g.s ({get what=sub})  u (unload)
-//                  t (harness: Topic.tags := users.tags)         s: 1, 2 ordinary sessions, 3 root session
-//      answer    : FS reply|calls|tags!pub1,pub2,pub3!priv / ...
+//                  t (harness: Topic.tags := users.tags)
+//                  s = <id> or <id>l<level>: session <id> of the searching user with sess.authLvl =
+//                  <level> (any int: 0 none, 10 anon, 20 auth, 30 root, junk); a bare id means
+//                  1, 2 -> 20 (auth), 3 -> 30 (root).  The level is assigned directly - except in
+//                  an "anon" scenario (7th word): there the searching user is an account created by
+//                  the REAL {acc user=new scheme=anonymous login=true} of the first level-10
+//                  session, every other level-10 session logs in with the REAL {login scheme=token}
+//                  using the token of that reply, and sess.authLvl is what the code assigned (a
+//                  level other than the requested one is printed after the reply as ~lvl<n>)
+//      answer    : FS reply|calls|tags!pub1,..,pubN!priv / ...     N = max(3, largest session id)
 //                  reply c<code> | m<found ids> | n ; calls U!req!opt!active&T!req!opt!active | -
 //
 // Helpers of zz_verif_topic_test.go (vInitServer, vNewSession, vWaitQuiet) and of
@@ -25,6 +33,7 @@
 package main
 
 import (
+	"encoding/base64"
 	"encoding/json"
 	"io"
 	"log"
@@ -66,6 +75,18 @@ func c19fndSetup() {
 			}
 			if err := basic.Init(json.RawMessage(conf), "basic"); err != nil {
 				panic("c19fnd: basic init: " + err.Error())
+			}
+		}
+		// for the "anon" scenarios: accounts created through the anonymous authenticator, sessions
+		// logged in with the token authenticator (neither takes part in tag rewriting: AsTag = "")
+		for name, conf := range map[string]string{
+			"token":     `{"expire_in":1209600,"serial_num":1,"key":"wfaY2RgF2S1OQI/ZlK+LSrp1KB2jwAdGAIHQ7JZn+Kc="}`,
+			"anonymous": `{}`,
+		} {
+			if h := store.Store.GetAuthHandler(name); h != nil && !h.IsInitialized() {
+				if err := h.Init(json.RawMessage(conf), name); err != nil {
+					panic("c19fnd: " + name + " init: " + err.Error())
+				}
 			}
 		}
 		globals.immutableTagNS = map[string]bool{"basic": true, "email": true, "tel": true}
@@ -145,6 +166,87 @@ type c19fndScn struct {
 	sess  map[int]*vSess
 	cands []*c19fndCand
 	n     int
+	nsess int    // the topic state shows the public queries of sessions 1..nsess
+	anon  bool   // "anon" scenario: level-10 sessions get their level from the real code
+	token []byte // of the {acc} reply
+	real  map[int]auth.Level // sessions logged in by the real code -> the level it gave them
+}
+
+// a session reference of a request: <id> or <id>l<level>
+func c19fndSessRefC19(s string) (int, auth.Level) {
+	if i := strings.Index(s, "l"); i >= 0 {
+		return int(vAtoi(s[:i])), auth.Level(vAtoi(s[i+1:]))
+	}
+	id := int(vAtoi(s))
+	if id == 3 {
+		return id, auth.LevelRoot
+	}
+	return id, auth.LevelAuth
+}
+
+// the largest session id named by the requests of a scenario (at least 3)
+func c19fndMaxSessC19(ops string) int {
+	n := 3
+	for _, s := range strings.Split(ops, "/") {
+		f := strings.Split(s, ".")
+		if (f[0] == "d" || f[0] == "g") && len(f) > 1 {
+			if id, _ := c19fndSessRefC19(f[1]); id > n {
+				n = id
+			}
+		}
+	}
+	return n
+}
+
+// "anon" scenario, first level-10 session: the REAL account creation through the anonymous
+// authenticator with login; the account becomes the searching user of the scenario
+func (sc *c19fndScn) anonCreateC19(own []string) {
+	vs := vNewSession(501, types.ZeroUid, auth.LevelNone)
+	vs.s.countryCode = sc.cc
+	vs.take()
+	id := sc.nextID()
+	vs.s.dispatchRaw([]byte(vJSON(map[string]any{"acc": map[string]any{"id": id, "user": "new", "scheme": "anonymous", "login": true}})))
+	vWaitQuiet(nil)
+	c19xDrainUsers()
+	for _, m := range vs.take() {
+		if m.Ctrl != nil && m.Ctrl.Id == id && m.Ctrl.Code < 300 {
+			if p, ok := m.Ctrl.Params.(map[string]any); ok {
+				if tok, ok := p["token"].([]byte); ok {
+					sc.token = tok
+				}
+			}
+		}
+	}
+	if vs.s.uid.IsZero() || sc.token == nil {
+		panic("c19fnd: anonymous account creation with login failed")
+	}
+	sc.uid = vs.s.uid
+	if len(own) > 0 {
+		if _, err := store.Users.UpdateTags(sc.uid, nil, nil, own); err != nil {
+			panic("c19fnd: tags of the anonymous account: " + err.Error())
+		}
+	}
+	sc.sess[-1] = vs // given its id by the first request that names a level-10 session
+}
+
+// "anon" scenario, later level-10 sessions: the REAL {login scheme=token}
+func (sc *c19fndScn) anonLoginC19(i int) *vSess {
+	if vs, ok := sc.sess[-1]; ok {
+		delete(sc.sess, -1)
+		return vs
+	}
+	vs := vNewSession(500+i, types.ZeroUid, auth.LevelNone)
+	vs.take()
+	id := sc.nextID()
+	vs.s.dispatchRaw([]byte(vJSON(map[string]any{"login": map[string]any{"id": id, "scheme": "token",
+		"secret": base64.StdEncoding.EncodeToString(sc.token)}})))
+	vWaitQuiet(nil)
+	c19xDrainUsers()
+	vs.take()
+	if vs.s.uid != sc.uid {
+		panic("c19fnd: token login of the anonymous account failed")
+	}
+	return vs
 }
 
 func (sc *c19fndScn) quiet() string {
@@ -154,17 +256,41 @@ func (sc *c19fndScn) quiet() string {
 }
 
 func (sc *c19fndScn) session(i int) *vSess {
-	if vs, ok := sc.sess[i]; ok {
-		return vs
+	return sc.sess[i]
+}
+
+// the session of a request, at the level the request names: created on first use; the level of an
+// existing session is re-assigned (a session may log in again); in an "anon" scenario a level-10
+// session keeps the level which the real login gave it
+func (sc *c19fndScn) sessionAt(ref string) (int, *vSess) {
+	i, lvl := c19fndSessRefC19(ref)
+	vs, ok := sc.sess[i]
+	if !ok {
+		if sc.anon && lvl == auth.LevelAnon {
+			vs = sc.anonLoginC19(i)
+			sc.real[i] = vs.s.authLvl
+		} else {
+			vs = vNewSession(500+i, sc.uid, lvl)
+		}
+		vs.s.countryCode = sc.cc
+		sc.sess[i] = vs
 	}
-	lvl := auth.LevelAuth
-	if i == 3 {
-		lvl = auth.LevelRoot
+	if given, ok := sc.real[i]; ok && lvl == auth.LevelAnon {
+		// (again) the level which the real login assigned, whatever was assigned directly in between
+		vs.s.authLvl = given
+	} else {
+		vs.s.authLvl = lvl
 	}
-	vs := vNewSession(500+i, sc.uid, lvl)
-	vs.s.countryCode = sc.cc
-	sc.sess[i] = vs
-	return vs
+	return i, vs
+}
+
+// "" when the session holds the level which the request names
+func (sc *c19fndScn) levelNote(ref string) string {
+	i, lvl := c19fndSessRefC19(ref)
+	if vs, ok := sc.sess[i]; ok && vs.s.authLvl != lvl {
+		return "~lvl" + strconv.Itoa(int(vs.s.authLvl))
+	}
+	return ""
 }
 
 func (sc *c19fndScn) nextID() string {
@@ -218,14 +344,17 @@ func c19fndQuery(v any) string {
 // what the topic holds: tags ! public query of sessions 1,2,3 ! private query
 func (sc *c19fndScn) state() string {
 	tags := "-"
-	pubs := []string{"~", "~", "~"}
+	pubs := make([]string, sc.nsess)
+	for i := range pubs {
+		pubs[i] = "~"
+	}
 	priv := "~"
 	if t := globals.hub.topicGet(sc.fnd); t != nil {
 		l := append([]string{}, t.tags...)
 		sort.Strings(l)
 		tags = c19Fmt(l, ",")
 		if pm, ok := t.public.(map[string]any); ok {
-			for i := 1; i <= 3; i++ {
+			for i := 1; i <= sc.nsess; i++ {
 				if vs, ok := sc.sess[i]; ok {
 					if v, ok := pm[vs.s.sid]; ok {
 						pubs[i-1] = c19fndQuery(v)
@@ -301,7 +430,7 @@ func (sc *c19fndScn) op(s string) string {
 	memverif.ResetFindLogC19()
 	switch f[0] {
 	case "d": // d.s.pub.priv
-		si := int(vAtoi(f[1]))
+		si, _ := sc.sessionAt(f[1])
 		sc.attach(si)
 		desc := map[string]any{}
 		if f[2] != "~" {
@@ -316,17 +445,20 @@ func (sc *c19fndScn) op(s string) string {
 		frames, hang = sc.request(si, vJSON(map[string]any{"set": map[string]any{"id": id, "topic": "fnd", "desc": desc}}))
 		reply = sc.reply(frames, id)
 	case "g": // g.s
-		si := int(vAtoi(f[1]))
+		si, _ := sc.sessionAt(f[1])
 		sc.attach(si)
 		id := sc.nextID()
 		memverif.ResetFindLogC19()
 		var frames []*ServerComMessage
 		frames, hang = sc.request(si, `{"get":{"id":"`+id+`","topic":"fnd","what":"sub"}}`)
-		reply = sc.reply(frames, id)
+		reply = sc.reply(frames, id) + sc.levelNote(f[1])
 	case "u":
 		sc.unload()
 		memverif.ResetFindLogC19()
 	case "t":
+		if sc.session(1) == nil {
+			sc.sessionAt("1")
+		}
 		sc.attach(1)
 		memverif.ResetFindLogC19()
 		if t := globals.hub.topicGet(sc.fnd); t != nil {
@@ -355,15 +487,20 @@ func c19fndRun(w []string) string {
 	c19fndSetup()
 	memverif.Reset()
 	globals.maskedTagNS = c19NS(w[1])
-	sc := &c19fndScn{sess: map[int]*vSess{}, cc: c19fndCC(w[3])}
+	sc := &c19fndScn{sess: map[int]*vSess{}, real: map[int]auth.Level{}, cc: c19fndCC(w[3]), nsess: c19fndMaxSessC19(w[5]),
+		anon: len(w) == 7 && w[6] == "anon"}
 	// the searching user
-	me := &types.User{Tags: c19List(w[2])}
-	me.Access.Auth = types.ModeCAuth
-	me.Access.Anon = types.ModeNone
-	if _, err := store.Users.Create(me, nil); err != nil {
-		panic("c19fnd: user create: " + err.Error())
+	if sc.anon {
+		sc.anonCreateC19(c19List(w[2]))
+	} else {
+		me := &types.User{Tags: c19List(w[2])}
+		me.Access.Auth = types.ModeCAuth
+		me.Access.Anon = types.ModeNone
+		if _, err := store.Users.Create(me, nil); err != nil {
+			panic("c19fnd: user create: " + err.Error())
+		}
+		sc.uid = me.Uid()
 	}
-	sc.uid = me.Uid()
 	sc.fnd = sc.uid.FndName()
 	sc.cands = append(sc.cands, &c19fndCand{id: 0, kind: "u", name: sc.uid.UserId()})
 	defer sc.finish()
@@ -426,7 +563,7 @@ func init() {
 				return "QR err"
 			}
 			return "QR ok " + c19fndGroups(and) + " " + c19Fmt(or, ",")
-		case len(w) == 6 && w[0] == "FS":
+		case (len(w) == 6 || len(w) == 7) && w[0] == "FS":
 			return c19fndRun(w)
 		}
 		return "?"
